@@ -1,3 +1,8 @@
+mod c20;
+mod c21;
+mod c22;
+mod util;
+
 fn main() {
-    vcore::runner::main(&[])
+    vcore::runner::main(&[("C20", c20::run), ("C21", c21::run), ("C22", c22::run)])
 }
